@@ -116,7 +116,7 @@ impl Prop for C11 {
         "C11"
     }
     fn rule(&self) -> String {
-        "observation = generated bytes + sorted warnings (rustfmt unreachable). (1) permutations: a 14-assignment module with forward/backward references (reversal, every adjacent transposition, every rotation), every closed sub-list of <=5 assignments in all orders (<=120), the same for modules inside one source and for sources of one compiler over 2..3-module import sets; (2) histories: BFS over sequences of compile operations from an 8-input alphabet (incl. two versions of one specification with identical names and instantiations but different bodies) that differs in every piece of per-run state (tagging default, extensibility, warnings, charset tables, backend, multi-module, failing input), depth <=3 (thorough 4), each step compared with the same operation in a fresh process; (3) schedules: shuttle::check_dfs over 2 threads × 1 compilation each (thorough: 2×2 and 3×1) with scheduling points at the verif_hooks stage boundaries, every compilation compared with its sequential reference; (4) the 6 inputs in 8 fresh processes (a sample of hash seeds — labelled sampling, not what the claim rests on). Non-trivial: at least two executions were compared.".into()
+        "observation = generated bytes + sorted warnings (rustfmt unreachable). (1) permutations: a 14-assignment module with forward/backward references (reversal, every adjacent transposition, every rotation), every closed sub-list of <=5 assignments in all orders (<=120), the same for modules inside one source and for sources of one compiler over 2..3-module import sets; (2) histories: BFS over sequences of compile operations from an 8-input alphabet (incl. two versions of one specification with identical names and instantiations but different bodies) that differs in every piece of per-run state (tagging default, extensibility, warnings, charset tables, backend, multi-module, failing input), depth <=3 (thorough 4), each step compared with the same operation in a fresh process; (3) schedules: shuttle::check_dfs over 2 threads × 1 compilation each (thorough: 2×2 over the boundaries {lex_source, validated, compiled} and 3×1 over {validated, generate_module}) with scheduling points at the verif_hooks stage boundaries, every compilation compared with its sequential reference; (4) the 6 inputs in 8 fresh processes (a sample of hash seeds — labelled sampling, not what the claim rests on). Non-trivial: at least two executions were compared.".into()
     }
     fn nondeterminism_is_violation(&self) -> bool {
         true
@@ -273,6 +273,13 @@ impl Prop for C11 {
                 let per = ops.len() / threads.max(1);
                 let (mm, cnt, alpha3, refs3) = (mismatches.clone(), count.clone(), Arc::new(alpha.clone()), Arc::new(refs.clone()));
                 crate::hooks::install();
+                // 2 threads × 1 compilation: every stage boundary is a scheduling point; the larger configurations are
+                // explored exhaustively over a coarser set of boundaries (all boundaries would be 10^6..10^8 schedules)
+                crate::hooks::set_points(match (c.threads, c.ops.len()) {
+                    (2, 2) => &[],
+                    (3, _) => &["validated", "generate_module"],
+                    _ => &["lex_source", "validated", "compiled"],
+                });
                 let r = guarded(move || {
                     shuttle::check_dfs(
                         move || {
